@@ -750,3 +750,274 @@ Proof.
   rewrite bool_decide_eq_false_2 in Hn by set_solver. rewrite Hn.
   match goal with |- gate_val Buf v ?S = _ => replace S with (list_to_set [r] : gset string) by set_solver end. rewrite gv1. simpl. by destruct (v r).
 Qed.
+
+(* ------------------------------------------------------------------ the node returned for an expression *)
+(* the valuation of an expression only looks at its identifiers *)
+Lemma sem_ext_all v v' x :
+  (∀ p, (∀ s, s ∈ ids_prim p → v s = v' s) → sem_prim v x p = sem_prim v' x p) ∧
+  (∀ u, (∀ s, s ∈ ids_unary u → v s = v' s) → sem_unary v x u = sem_unary v' x u) ∧
+  (∀ a, (∀ s, s ∈ ids_and a → v s = v' s) → sem_and v x a = sem_and v' x a) ∧
+  (∀ e, (∀ s, s ∈ ids_xor e → v s = v' s) → sem_xor v x e = sem_xor v' x e) ∧
+  (∀ o, (∀ s, s ∈ ids_or o → v s = v' s) → sem_or v x o = sem_or v' x o).
+Proof.
+  apply expr_mutind; simpl.
+  - intros s H. apply H. by left.
+  - done.
+  - auto.
+  - auto.
+  - intros p IH H. by rewrite IH.
+  - auto.
+  - intros a IHa u IHu H. rewrite IHa, IHu; [done| |]; intros s Hs; apply H; set_solver.
+  - auto.
+  - intros e IHe a IHa H. rewrite IHe, IHa; [done| |]; intros s Hs; apply H; set_solver.
+  - intros e IHe a IHa H. rewrite IHe, IHa; [done| |]; intros s Hs; apply H; set_solver.
+  - auto.
+  - intros o IHo e IHe H. rewrite IHo, IHe; [done| |]; intros s Hs; apply H; set_solver.
+Qed.
+Lemma sem_cond_ext v v' x e : (∀ s, s ∈ ids_cond e → v s = v' s) → sem_cond v x e = sem_cond v' x e.
+Proof.
+  destruct (sem_ext_all v v' x) as (_ & _ & _ & _ & Hor). destruct e as [o|s a b]; simpl; intros H.
+  - by apply Hor.
+  - rewrite (Hor s), (Hor a), (Hor b); [done| | |]; intros y Hy; apply H; set_solver.
+Qed.
+
+(* operands of a successful add are nodes afterwards *)
+Lemma connect_dom c us vs c' : connect_g c us vs = (c', Done) → us ≠ [] → vs ≠ [] → ∀ x, x ∈ us → x ∈ dom c.
+Proof.
+  unfold connect_g. intros H Hu Hv x Hx. rewrite !bool_decide_eq_false_2 in H by done. simpl in H.
+  destruct (forallb _ (us ++ vs)) eqn:Ef; simpl in H; [|discriminate].
+  rewrite forallb_forall in Ef. specialize (Ef x). rewrite bool_decide_eq_true in Ef. apply Ef. apply elem_of_list_In. set_solver.
+Qed.
+Lemma add_g_fi_dom c n t fi fl g' nm : add_g c n t fi [] fl = (g', Done, nm) → af_uid fl = false → ∀ x, x ∈ fi → x ∈ dom g'.
+Proof.
+  intros H Hu x Hx. pose proof H as H0. apply add_g_gen in H0 as (_ & Hn & Hoth); [|done].
+  destruct (decide (x = n)) as [->|Hne]; [apply elem_of_dom; eauto|].
+  unfold add_g in H. rewrite Hu in H. simpl in H.
+  repeat (match type of H with (if ?b then _ else _) = _ => destruct b eqn:?; [discriminate|] end).
+  rewrite app_nil_r in H. fold ph_step in H.
+  destruct (if af_conn fl then _ else _) as [c1' o1] eqn:Hf. destruct o1 as [|e]; [|discriminate]. simpl in H.
+  destruct (connect_g c1' fi [n]) as [c3 o3] eqn:Hc. destruct o3 as [|e]; [|destruct e; discriminate]. injection H as <- _.
+  assert (Hfi : fi ≠ []) by (intros ->; by apply elem_of_nil in Hx).
+  pose proof (connect_dom _ _ _ _ Hc Hfi ltac:(done) x Hx) as Hd. apply connect_one in Hc as [Hc1 _].
+  apply elem_of_dom in Hd as [i Hi]. apply elem_of_dom. exists i. by rewrite Hc1.
+Qed.
+Lemma gate_fi_dom k st prefix t items fi rem st' r : gate k st prefix t items fi rem = Ok (st', r) → ∀ x, x ∈ fi → x ∈ dom st'.1.
+Proof.
+  unfold gate, add_node. intros H x Hx. apply rbind_ok in H as ([g' nm] & H1 & H2). simpl in H2. injection H2 as <- <-. simpl.
+  destruct (add_g _ _ _ _ _ _) as [[g2 o] nm2] eqn:Ha. destruct o; simpl in H1; [|discriminate]. injection H1 as <- <-.
+  by eapply add_g_fi_dom.
+Qed.
+
+Definition ties (k : rctx) : gset string := {[k_t0 k; k_t1 k; k_tx k]}.
+(* a well-formed reader state: edges end at nodes, the constants are nodes and none of the reader's gates, the gates are
+   outside the reserved identifiers *)
+Definition gst (k : rctx) (st : cstate) : Prop :=
+  closed st.1 ∧ ties k ⊆ dom st.1 ∧ ties k ## st.2 ∧ st.2 ## k_rsv k.
+Definition frg (k : rctx) (st st' : cstate) : Prop := st.1 ⊆ st'.1 ∧ (gst k st → gst k st').
+Lemma frg_refl k st : frg k st st. Proof. by split. Qed.
+Lemma frg_trans k a b c : frg k a b → frg k b c → frg k a c.
+Proof. intros [A1 A2] [B1 B2]. split; [by etrans|auto]. Qed.
+Lemma frg_gate k s prefix t items fi rem s' r' : t ∈ [Not; And; Or; Xor; Xnor] → fi ≠ [] →
+  gate k s prefix t items fi rem = Ok (s', r') → frg k s s'.
+Proof.
+  intros Ht Hfi H. pose proof (gate_fi_dom _ _ _ _ _ _ _ _ _ H) as Hfd.
+  apply gate_spec in H as (Hs & Hl & Hnd & Hnr & Hnew & Hge); [|done]. split; [done|].
+  intros (Hcl & Hti & Htg & Hgr). split; [|split; [|split]].
+  - intros x i f Hx Hf. assert (Hd : x ∈ dom s'.1) by (apply elem_of_dom; eauto). destruct (Hnew x Hd) as [Hd'|[->|[_ Hb]]].
+    + apply elem_of_dom in Hd' as [j Hj]. pose proof (lookup_weaken _ _ _ _ Hj Hs). assert (j = i) as -> by congruence.
+      specialize (Hcl x i f Hj Hf). apply elem_of_dom in Hcl as [l Hl']. apply elem_of_dom. exists l. by eapply lookup_weaken.
+    + rewrite Hl in Hx. injection Hx as <-. simpl in Hf. apply Hfd. by apply elem_of_list_to_set in Hf.
+    + rewrite Hb in Hx. injection Hx as <-. simpl in Hf. set_solver.
+  - intros x Hx. specialize (Hti x Hx). apply elem_of_dom in Hti as [j Hj]. apply elem_of_dom. exists j. by eapply lookup_weaken.
+  - intros x Hx Hx2. apply Hge in Hx2. apply elem_of_union in Hx2 as [->%elem_of_singleton|?]; [|set_solver]. apply Hnd. by apply Hti.
+  - intros x Hx Hx2. apply Hge in Hx. apply elem_of_union in Hx as [->%elem_of_singleton|?]; [done|set_solver].
+Qed.
+Lemma frg_cond k e st st' r : c_cond k st e = Ok (st', r) → frg k st st'.
+Proof. apply (frame_cond k (frg k) (frg_refl k) (frg_trans k) (frg_gate k)). Qed.
+
+Definition gate_types5 : list gtype := [Not; And; Or; Xor; Xnor].
+(* r is a gate over operands other than itself that nothing reads *)
+Definition topgate (g : circuit) (r : string) : Prop :=
+  ∃ t fi, g !! r = Some (mk_node t false (list_to_set fi)) ∧ t ∈ gate_types5 ∧ fi ≠ [] ∧ r ∉ fi ∧ ∀ x i, g !! x = Some i → r ∉ n_fi i.
+Definition resq (k : rctx) (st st' : cstate) (r : string) : Prop :=
+  (r ∈ k_rsv k ∨ r ∈ dom st'.1) ∧ (r ∈ st'.2 → st.1 !! r = None ∧ topgate st'.1 r).
+Lemma gate_resq k st su prefix t items fi rem st' r : st.1 ⊆ su.1 → gst k su → gate k su prefix t items fi rem = Ok (st', r) →
+  t ∈ gate_types5 → fi ≠ [] → (∀ o, o ∈ fi → o ∈ k_rsv k ∨ o ∈ dom su.1) → resq k st st' r.
+Proof.
+  intros Hss (Hcl & Hti & Htg & Hgr) H Ht Hfi Hops. apply gate_spec in H as (Hs & Hl & Hnd & Hnr & Hnew & Hge); [|done].
+  assert (Hrfi : r ∉ fi). { intros Hin. destruct (Hops r Hin); done. }
+  split; [right; apply elem_of_dom; eauto|]. intros _. split.
+  - apply not_elem_of_dom. intros Hd. apply Hnd. apply elem_of_dom in Hd as [j Hj]. apply elem_of_dom. exists j. by eapply lookup_weaken.
+  - exists t, fi. split; [done|]. split; [done|]. split; [done|]. split; [done|].
+    intros x i Hx Hin. assert (Hd : x ∈ dom st'.1) by (apply elem_of_dom; eauto). destruct (Hnew x Hd) as [Hd'|[->|[_ Hb]]].
+    + apply elem_of_dom in Hd' as [j Hj]. pose proof (lookup_weaken _ _ _ _ Hj Hs). assert (j = i) as -> by congruence.
+      apply Hnd. by eapply Hcl.
+    + rewrite Hl in Hx. injection Hx as <-. simpl in Hin. by apply elem_of_list_to_set in Hin.
+    + rewrite Hb in Hx. injection Hx as <-. simpl in Hin. set_solver.
+Qed.
+Lemma resq_weaken k st st1 st' r : st.1 ⊆ st1.1 → resq k st1 st' r → resq k st st' r.
+Proof.
+  intros Hs [A B]. split; [done|]. intros Hr. destruct (B Hr) as [Hn Ht]. split; [|done].
+  destruct (st.1 !! r) as [j|] eqn:E; [|done]. pose proof (lookup_weaken _ _ _ _ E Hs). congruence.
+Qed.
+Lemma resq_dom k st st' (s'' : cstate) r : st'.1 ⊆ s''.1 → resq k st st' r → r ∈ k_rsv k ∨ r ∈ dom s''.1.
+Proof. intros Hs [[?|Hd] _]; [by left|right]. apply elem_of_dom in Hd as [j Hj]. apply elem_of_dom. exists j. by eapply lookup_weaken. Qed.
+
+Section result.
+  Context (k : rctx).
+  Definition rq {T} (cf : rctx → cstate → T → res (cstate * string)) (idf : T → list string) (e : T) : Prop :=
+    ∀ st st' r, cf k st e = Ok (st', r) → gst k st → (list_to_set (idf e) : gset string) ⊆ k_rsv k → resq k st st' r.
+  Lemma frg_levels : (∀ p, fp k (frg k) c_prim p) ∧ (∀ u, fp k (frg k) c_unary u) ∧ (∀ a, fp k (frg k) c_and a) ∧
+                     (∀ x, fp k (frg k) c_xor x) ∧ (∀ o, fp k (frg k) c_or o).
+  Proof. apply (frame_all k (frg k) (frg_refl k) (frg_trans k) (frg_gate k)). Qed.
+  Lemma tie_resq st c : gst k st → resq k st st (konst_node k c).
+  Proof.
+    intros (Hcl & Hti & Htg & Hgr). assert (Hin : konst_node k c ∈ ties k) by (destruct c; unfold ties; set_solver).
+    split; [right; by apply Hti|]. intros Hge. exfalso. by apply (Htg _ Hin).
+  Qed.
+  Lemma result_all : (∀ p, rq c_prim ids_prim p) ∧ (∀ u, rq c_unary ids_unary u) ∧ (∀ a, rq c_and ids_and a) ∧
+                     (∀ x, rq c_xor ids_xor x) ∧ (∀ o, rq c_or ids_or o).
+  Proof.
+    destruct frg_levels as (Fp & Fu & Fa & Fx & Fo).
+    apply expr_mutind; unfold rq.
+    - intros s st st' r H G Hid. simpl in H, Hid. injection H as <- <-. assert (s ∈ k_rsv k) by set_solver. split; [by left|].
+      intros Hge. exfalso. destruct G as (_ & _ & _ & Hgr). by apply (Hgr s Hge).
+    - intros c st st' r H G Hid. simpl in H. injection H as <- <-. by apply tie_resq.
+    - intros o IH st st' r H G Hid. simpl in H. by eapply IH.
+    - intros p IH st st' r H G Hid. simpl in H. by eapply IH.
+    - intros p IH st st' r H G Hid. simpl in H. apply rbind_ok in H as ([st1 r1] & H1 & H2). simpl in H2.
+      destruct (Fp p _ _ _ H1) as [S1 G1]. eapply gate_resq; [exact S1|by apply G1|exact H2|set_solver|done|].
+      intros o ->%elem_of_list_singleton. eapply (resq_dom k st st1 st1); [done|]. eapply IH; [exact H1|exact G|exact Hid].
+    - intros u IH st st' r H G Hid. simpl in H. by eapply IH.
+    - intros a IHa u IHu st st' r H G Hid. simpl in H, Hid.
+      apply rbind_ok in H as ([st1 r1] & H1 & H). simpl in H. apply rbind_ok in H as ([st2 r2] & H2 & H). simpl in H.
+      destruct (Fa a _ _ _ H1) as [S1 G1]. destruct (Fu u _ _ _ H2) as [S2 G2]. cbn [fst snd] in *.
+      eapply gate_resq; [by etrans|by apply G2, G1|exact H|set_solver|done|].
+      intros o [->|[->|[]%elem_of_nil]%elem_of_cons]%elem_of_cons.
+      + eapply (resq_dom k st st1 st2); [exact S2|]. eapply IHa; [exact H1|exact G|set_solver].
+      + eapply (resq_dom k st1 st2 st2); [done|]. eapply IHu; [exact H2|by apply G1|set_solver].
+    - intros a IH st st' r H G Hid. simpl in H. by eapply IH.
+    - intros x IHx a IHa st st' r H G Hid. simpl in H, Hid.
+      apply rbind_ok in H as ([st1 r1] & H1 & H). simpl in H. apply rbind_ok in H as ([st2 r2] & H2 & H). simpl in H.
+      destruct (Fx x _ _ _ H1) as [S1 G1]. destruct (Fa a _ _ _ H2) as [S2 G2]. cbn [fst snd] in *.
+      case_bool_decide.
+      + injection H as <- <-. eapply (resq_weaken k st st2); [by etrans|]. apply (tie_resq st2 K0). by apply G2, G1.
+      + eapply gate_resq; [by etrans|by apply G2, G1|exact H|set_solver|done|].
+        intros o [->|[->|[]%elem_of_nil]%elem_of_cons]%elem_of_cons.
+        * eapply (resq_dom k st st1 st2); [exact S2|]. eapply IHx; [exact H1|exact G|set_solver].
+        * eapply (resq_dom k st1 st2 st2); [done|]. eapply IHa; [exact H2|by apply G1|set_solver].
+    - intros x IHx a IHa st st' r H G Hid. simpl in H, Hid.
+      apply rbind_ok in H as ([st1 r1] & H1 & H). simpl in H. apply rbind_ok in H as ([st2 r2] & H2 & H). simpl in H.
+      destruct (Fx x _ _ _ H1) as [S1 G1]. destruct (Fa a _ _ _ H2) as [S2 G2]. cbn [fst snd] in *.
+      case_bool_decide.
+      + injection H as <- <-. eapply (resq_weaken k st st2); [by etrans|]. apply (tie_resq st2 K1). by apply G2, G1.
+      + eapply gate_resq; [by etrans|by apply G2, G1|exact H|set_solver|done|].
+        intros o [->|[->|[]%elem_of_nil]%elem_of_cons]%elem_of_cons.
+        * eapply (resq_dom k st st1 st2); [exact S2|]. eapply IHx; [exact H1|exact G|set_solver].
+        * eapply (resq_dom k st1 st2 st2); [done|]. eapply IHa; [exact H2|by apply G1|set_solver].
+    - intros x IH st st' r H G Hid. simpl in H. by eapply IH.
+    - intros o IHo x IHx st st' r H G Hid. simpl in H, Hid.
+      apply rbind_ok in H as ([st1 r1] & H1 & H). simpl in H. apply rbind_ok in H as ([st2 r2] & H2 & H). simpl in H.
+      destruct (Fo o _ _ _ H1) as [S1 G1]. destruct (Fx x _ _ _ H2) as [S2 G2]. cbn [fst snd] in *.
+      eapply gate_resq; [by etrans|by apply G2, G1|exact H|set_solver|done|].
+      intros o' [->|[->|[]%elem_of_nil]%elem_of_cons]%elem_of_cons.
+      + eapply (resq_dom k st st1 st2); [exact S2|]. eapply IHo; [exact H1|exact G|set_solver].
+      + eapply (resq_dom k st1 st2 st2); [done|]. eapply IHx; [exact H2|by apply G1|set_solver].
+  Qed.
+End result.
+
+Lemma gate_res_dom k su prefix t items fi rem st' r : gate k su prefix t items fi rem = Ok (st', r) → fi ≠ [] → r ∈ dom st'.1.
+Proof. intros H Hfi. apply gate_spec in H as (_ & Hl & _); [|done]. apply elem_of_dom. eauto. Qed.
+Theorem result_cond k e st st' r : c_cond k st e = Ok (st', r) → gst k st → (list_to_set (ids_cond e) : gset string) ⊆ k_rsv k →
+  resq k st st' r.
+Proof.
+  destruct (result_all k) as (_ & _ & _ & _ & Ro). destruct (frg_levels k) as (_ & _ & _ & _ & Fo).
+  destruct e as [o|s a b]; intros H G Hid.
+  - simpl in H. by eapply Ro.
+  - unfold c_cond in H.
+    apply mbind_ok in H as ([st1 r1] & H1 & H). apply mbind_ok in H as ([st2 r2] & H2 & H).
+    apply mbind_ok in H as ([st3 r3] & H3 & H). cbn [fst snd] in H.
+    apply mbind_ok in H as ([gn n] & Hn & H). apply mbind_ok in H as ([ga0 a0] & Ha0 & H).
+    apply mbind_ok in H as ([ga1 a1] & Ha1 & H). cbn [fst snd] in *.
+    destruct (Fo s _ _ _ H1) as [S1 G1]. destruct (Fo a _ _ _ H2) as [S2 G2]. destruct (Fo b _ _ _ H3) as [S3 G3].
+    edestruct (frg_gate k) as [Sn Gn]; [| |exact Hn|]; [set_solver|done|].
+    edestruct (frg_gate k) as [Sa0 Ga0]; [| |exact Ha0|]; [set_solver|done|].
+    edestruct (frg_gate k) as [Sa1 Ga1]; [| |exact Ha1|]; [set_solver|done|]. cbn [fst snd] in *.
+    eapply gate_resq; [|by apply Ga1, Ga0, Gn, G3, G2, G1|exact H|set_solver|done|].
+    + do 5 (etrans; [eassumption|]). done.
+    + intros o [->|[->|[]%elem_of_nil]%elem_of_cons]%elem_of_cons; right.
+      * pose proof (gate_res_dom _ _ _ _ _ _ _ _ _ Ha0 ltac:(done)) as Hd. apply elem_of_dom in Hd as [j Hj]. apply elem_of_dom. exists j. by eapply lookup_weaken.
+      * by eapply gate_res_dom.
+Qed.
+
+(* ------------------------------------------------------------------ one continuous assignment, relabel case *)
+Lemma upd_fi_id (f : gset string → gset string) i : f (n_fi i) = n_fi i → upd_fi f i = i.
+Proof. destruct i. unfold upd_fi. simpl. by intros ->. Qed.
+Lemma node_ok_ext v v' n n' i : v n = v' n' → (∀ f, f ∈ n_fi i → v f = v' f) → node_ok v n i → node_ok v' n' i.
+Proof.
+  intros Hn Hf. unfold node_ok. destruct (is_free i); [done|].
+  assert (Hg : ∀ t, gate_val t v (n_fi i) = gate_val t v' (n_fi i)) by (intros t; by apply gate_val_ext).
+  destruct (n_ty i); rewrite <- ?Hn, <- ?Hg; done.
+Qed.
+Theorem assign_relabel_correct k st lv e st1 r st' :
+  c_cond k st e = Ok (st1, r) → r ∈ st1.2 → assignment k st1 lv r = Ok st' →
+  gst k st → ties_ok k st.1 → (list_to_set (ids_cond e) : gset string) ⊆ k_rsv k →
+  lv ∉ [k_t0 k; k_t1 k; k_tx k] → lv ∈ k_rsv k →
+  (∀ i, st.1 !! lv = Some i → n_fi i = ∅ ∧ is_free i = true) →
+  ∀ v, consistent st'.1 v → v lv = sem_cond v (v (k_tx k)) e.
+Proof.
+  intros Hc Hr Ha G Ht Hid Hlv Hrsv Hfree v Hv.
+  destruct (compile_cond_ok e k st st1 r Hc) as [Hs Hval]. destruct (fr2_cond _ _ _ _ _ Hc) as [_ Hnew].
+  destruct (frg_cond _ _ _ _ _ Hc) as [_ G1]. specialize (G1 G).
+  destruct (result_cond _ _ _ _ _ Hc G Hid) as [_ HB]. destruct (HB Hr) as (Hrn & t & fi & Hl & Htt & Hfi & Hrfi & Hnofo).
+  unfold assignment in Ha. rewrite bool_decide_eq_false_2 in Ha by done. rewrite bool_decide_eq_true_2 in Ha by done.
+  injection Ha as <-. simpl in *.
+  assert (Hrr : r ∉ k_rsv k). { destruct G1 as (_ & _ & _ & Hd). intros ?. by apply (Hd r). }
+  assert (Hne : r ≠ lv) by (intros ->; done).
+  assert (Hlv1 : ∀ i, st1.1 !! lv = Some i → n_fi i = ∅ ∧ is_free i = true).
+  { intros i Hi. destruct (st.1 !! lv) as [j|] eqn:Ej.
+    - pose proof (lookup_weaken _ _ _ _ Ej Hs). assert (j = i) as -> by congruence. eauto.
+    - destruct (Hnew lv i Hi Ej) as [?| ->]; [done|]. done. }
+  (* the graph after the relabel, node by node *)
+  assert (Hsub : ∀ i, r ∉ n_fi i → upd_fi (λ s : gset string, if bool_decide (r ∈ s) then {[lv]} ∪ s ∖ {[r]} else s) i = i).
+  { intros i Hi. apply upd_fi_id. by rewrite bool_decide_eq_false_2. }
+  assert (Hg' : ∀ x, x ≠ lv → x ≠ r → relabel_g st1.1 r lv !! x = st1.1 !! x).
+  { intros x H1 H2. unfold relabel_g. rewrite Hl. rewrite bool_decide_eq_false_2 by done.
+    rewrite lookup_insert_ne by done. rewrite lookup_fmap, lookup_delete_ne by done.
+    destruct (st1.1 !! x) as [i|] eqn:E; [|done]. simpl. f_equal. apply Hsub. by eapply Hnofo. }
+  assert (Hglv : relabel_g st1.1 r lv !! lv = Some (mk_node t false (list_to_set fi))).
+  { unfold relabel_g. rewrite Hl. rewrite bool_decide_eq_false_2 by done. rewrite lookup_insert. f_equal. unfold mk_node. simpl. f_equal.
+    rewrite bool_decide_eq_false_2 by (by rewrite elem_of_list_to_set).
+    assert (fanin (upd_fi (λ s : gset string, if bool_decide (r ∈ s) then {[lv]} ∪ s ∖ {[r]} else s) <$> delete r st1.1) lv = ∅) as ->; [|set_solver].
+    unfold fanin. rewrite lookup_fmap, lookup_delete_ne by done. destruct (st1.1 !! lv) as [i|] eqn:E; [|done]. simpl.
+    destruct (Hlv1 i eq_refl) as [E0 _]. rewrite E0. by rewrite bool_decide_eq_false_2 by set_solver. }
+  set (v' := λ x, if bool_decide (x = r) then v lv else v x).
+  assert (Hv'x : ∀ x, x ≠ r → v' x = v x) by (intros x Hx; unfold v'; by rewrite bool_decide_eq_false_2).
+  assert (Hc1 : consistent st1.1 v').
+  { intros x i Hi. destruct (decide (x = r)) as [->|Hxr].
+    - rewrite Hl in Hi. injection Hi as <-. pose proof (Hv lv _ Hglv) as Hn.
+      eapply (node_ok_ext v v' lv r); [unfold v'; by rewrite bool_decide_eq_true_2| |exact Hn].
+      simpl. intros f Hf. rewrite Hv'x; [done|]. intros ->. by apply elem_of_list_to_set in Hf.
+    - destruct (decide (x = lv)) as [->|Hxl].
+      + unfold node_ok. destruct (Hlv1 i Hi) as [_ ->]. done.
+      + eapply (node_ok_ext v v' x x); [by rewrite Hv'x| |apply Hv; by rewrite Hg'].
+        intros f Hf. rewrite Hv'x; [done|]. intros ->. by eapply Hnofo. }
+  assert (Htx : k_tx k ≠ r). { intros <-. destruct G as (_ & Hti & _). assert (k_tx k ∈ dom st.1) by (apply Hti; unfold ties; set_solver).
+    apply elem_of_dom in H as [? ?]. congruence. }
+  pose proof (Hval v' Ht Hc1) as Hres. unfold v' at 1 in Hres. rewrite bool_decide_eq_true_2 in Hres by done.
+  rewrite Hres. rewrite (Hv'x (k_tx k) Htx). symmetry. apply sem_cond_ext. intros s Hs'. symmetry. apply Hv'x. intros ->. apply Hrr. apply Hid. by apply elem_of_list_to_set.
+Qed.
+
+(* one continuous assignment, both cases: after `assign lv = e` the net lv carries the value of e *)
+Theorem assign_correct k st lv e st' :
+  c_assign k st (lv, e) = Ok st' →
+  gst k st → ties_ok k st.1 → (list_to_set (ids_cond e) : gset string) ⊆ k_rsv k →
+  lv ∉ [k_t0 k; k_t1 k; k_tx k] → lv ∈ k_rsv k →
+  (∀ i, st.1 !! lv = Some i → n_fi i = ∅ ∧ is_free i = true) →
+  ∀ v, consistent st'.1 v → v lv = sem_cond v (v (k_tx k)) e.
+Proof.
+  unfold c_assign. simpl. intros H G Ht Hid Hlv Hrsv Hfree v Hv. apply mbind_ok in H as ([st1 r] & H1 & H2). simpl in H2.
+  destruct (decide (r ∈ st1.2)).
+  - by eapply assign_relabel_correct.
+  - by eapply assign_buffer_correct.
+Qed.
